@@ -147,6 +147,9 @@ def string_dispatch(body, var):
 
     Returns (chain: list of (key, body), else_body, node) for the first chain on ``var`` found at
     the top level of ``body`` (descending into nothing)."""
+    d = _dict_dispatch(body, var)
+    if d is not None:
+        return d
     for s in body:
         if isinstance(s, ast.If):
             chain = []
@@ -166,6 +169,41 @@ def string_dispatch(body, var):
                 break
             if ok and chain:
                 return chain, else_body, s
+    return None
+
+
+def _dict_dispatch(body, var):
+    """The table form of the same dispatch::
+
+        tbl = {"a": X, "b": Y}          # local literal dict with string keys
+        if var not in tbl: raise ...
+        name = tbl[var]                  # or  n1, n2 = tbl[var]  with tuple values
+
+    is returned as the equivalent chain with one synthetic assignment per key."""
+    tables = {}
+    guard = None
+    for s in body:
+        if isinstance(s, ast.Assign) and len(s.targets) == 1 and isinstance(s.targets[0], ast.Name) and \
+                isinstance(s.value, ast.Dict) and s.value.keys and \
+                all(isinstance(k, ast.Constant) and isinstance(k.value, str) for k in s.value.keys):
+            tables[s.targets[0].id] = s.value
+        elif isinstance(s, ast.If) and isinstance(s.test, ast.Compare) and len(s.test.ops) == 1 and \
+                isinstance(s.test.ops[0], ast.NotIn) and norm(s.test.left) == var and \
+                isinstance(s.test.comparators[0], ast.Name) and s.test.comparators[0].id in tables and \
+                s.body and isinstance(s.body[-1], ast.Raise) and not s.orelse:
+            guard = (s, s.test.comparators[0].id)
+        elif guard is not None and isinstance(s, ast.Assign) and len(s.targets) == 1 and \
+                isinstance(s.value, ast.Subscript) and norm(s.value.value) == guard[1] and norm(s.value.slice) == var:
+            tbl = tables[guard[1]]
+            chain = []
+            for k, v in zip(tbl.keys, tbl.values):
+                syn = ast.Assign(targets=[s.targets[0]], value=v)
+                ast.copy_location(syn, v)
+                chain.append((k.value, [syn]))
+            return chain, guard[0].body, guard[0]
+        elif guard is not None and any(isinstance(n, ast.Name) and n.id == guard[1] and isinstance(n.ctx, ast.Store)
+                                       for n in ast.walk(s)):
+            return None
     return None
 
 
